@@ -4,6 +4,17 @@ import re
 from .utils import split_remote_path
 
 
+def _split_remote_path(remote_path: str) -> list[str]:
+    """Splits the remote path into parts, relative parts ('.' and '..') are
+    ignored: the path is chosen by the peer and should never lead outside of
+    the download directory
+    """
+    return [
+        part for part in split_remote_path(remote_path)
+        if part not in ('.', '..')
+    ]
+
+
 class NamingStrategy:
     NAME = None
 
@@ -28,7 +39,7 @@ class DefaultNamingStrategy(NamingStrategy):
     """
 
     def apply(self, remote_path: str, local_dir: str, local_filename: str) -> tuple[str, str]:
-        return local_dir, split_remote_path(remote_path)[-1]
+        return local_dir, _split_remote_path(remote_path)[-1]
 
 
 class KeepDirectoryStrategy(NamingStrategy):
@@ -37,7 +48,7 @@ class KeepDirectoryStrategy(NamingStrategy):
     def apply(self, remote_path: str, local_dir: str, local_filename: str) -> tuple[str, str]:
         # -1 filename
         # -2 the containing directory
-        remote_path_parts = split_remote_path(remote_path)
+        remote_path_parts = _split_remote_path(remote_path)
 
         # Only a filename (not sure if this can occur)
         if len(remote_path_parts) == 1:
